@@ -12,6 +12,7 @@ import (
 	"github.com/hashicorp/hcl/v2/ext/typeexpr"
 	"github.com/hashicorp/hcl/v2/hclsyntax"
 	"github.com/zclconf/go-cty/cty"
+	"github.com/zclconf/go-cty/cty/convert"
 )
 
 const vf = "test.tf"
@@ -19,7 +20,8 @@ const vf = "test.tf"
 // verifSeedDecoder: a real Decoder/PathDecoder over the stretched seed.
 var _ = verifSeedDecoder
 
-func verifSeedDecoder(i int) (*PathDecoder, verifSeed) {
+// verifSeedDecoderFresh: the decoder of seed i on a freshly built schema and context; no query has run yet.
+func verifSeedDecoderFresh(i int) (*PathDecoder, *PathContext, verifSeed) {
 	s := verifSeedList()[i]
 	D := verifBound("D", 2, 6)
 	f := verifStretch(s.src, vf, D, 0)
@@ -34,19 +36,31 @@ func verifSeedDecoder(i int) (*PathDecoder, verifSeed) {
 	dctx := NewDecoderContext()
 	// as a language server does: links carry campaign parameters (the URL handed out differs from the schema's)
 	dctx.UtmSource, dctx.UtmMedium, dctx.UseUtmContent = "verif", "ls", true
+	dctx.CompletionHooks["verifhook"] = func(ctx context.Context, value cty.Value) ([]Candidate, error) {
+		return []Candidate{{Label: "hook-one", RawInsertText: "\"one\""}, {Label: "hook-two", RawInsertText: "\"two\""}}, nil
+	}
 	d.SetContext(dctx)
 	pd, err := d.Path(lang.Path{Path: "dir"})
 	if err != nil {
 		panic(err)
 	}
-	// as a language server does: collect the targets and origins of the path once and keep them in the context
-	if ts, err := pd.CollectReferenceTargets(); err == nil {
+	return pd, pc, s
+}
+
+func verifSeedDecoder(i int) (*PathDecoder, verifSeed) {
+	pd, pc, s := verifSeedDecoderFresh(i)
+	// as a language server does: collect the targets and origins of the path once and keep them in
+	// the context (the collections themselves are watched by the targets and origins drivers, which
+	// run them first thing on a fresh schema)
+	ts, terr := pd.CollectReferenceTargets()
+	origins, oerr := pd.CollectReferenceOrigins()
+	if terr == nil {
 		// kept in a slice with spare capacity, as slices grown by append have
 		all := make(reference.Targets, 0, 64)
 		all = append(all, pc.ReferenceTargets...)
 		pc.ReferenceTargets = append(all, ts...)
 	}
-	if origins, err := pd.CollectReferenceOrigins(); err == nil {
+	if oerr == nil {
 		pc.ReferenceOrigins = origins
 	}
 	return pd, s
@@ -129,7 +143,7 @@ func VerifP_C01C02C04C05C11_Lookups(i int) {
 func VerifP_C01C02C04C05C12_Hover_N() int { return len(verifSeedList()) }
 func VerifP_C01C02C04C05C12_Hover_Name(i int) string { return verifSeedList()[i].name }
 func VerifP_C01C02C04C05C12_Hover(i int) {
-	d, _ := verifSeedDecoder(i)
+	d, seed := verifSeedDecoder(i)
 	pos := verifAnyPos(vf)
 	verifFreeze(d.pathCtx)
 	verifQuery(func() {
@@ -142,7 +156,8 @@ func VerifP_C01C02C04C05C12_Hover(i int) {
 		}
 		if err == nil {
 			body := d.pathCtx.Files[vf].Body.(*hclsyntax.Body)
-			verifCheckHoverElement(body, d.pathCtx.Schema, pos, hd)
+			// (the oracle reads a schema of its own: what earlier queries may have done to the decoder's is not trusted)
+			verifCheckHoverElement(body, verifSchemas(seed.schema), pos, hd)
 		}
 	})
 	verifNoWrites("C04:hover-writes", true)
@@ -177,6 +192,11 @@ func verifCheckHoverElement(body *hclsyntax.Body, bs *schema.BodySchema, pos hcl
 			} else if bs.AnyAttribute != nil {
 				as = bs.AnyAttribute
 			} else {
+				// an attribute the effective schema does not know: nothing known is at its name
+				if verifIn(attr.NameRange, pos) {
+					verifAssert(hd == nil, "C12:no-hover-for-an-attribute-the-effective-schema-does-not-know"+at)
+					return
+				}
 				continue
 			}
 		}
@@ -515,6 +535,12 @@ func verifCheckLabelCandidates(body *hclsyntax.Body, bs *schema.BodySchema, pos 
 	}
 }
 
+// verifOracleSchema: the schema of seed i, built afresh for an oracle: what earlier queries may
+// have done to the schema the decoder works on is not trusted.
+func verifOracleSchema(i int) *schema.BodySchema {
+	return verifSchemas(verifSeedList()[i].schema)
+}
+
 // verifSpecBodyItems: what a body may still declare, re-stated from the property: the attributes
 // and block types of the effective schema (static body plus the dependent body db, nil if none)
 // with the typed prefix that can still be declared - attribute not yet written and not read-only,
@@ -680,6 +706,44 @@ func verifCheckBodyCandidates(body *hclsyntax.Body, static, db *schema.BodySchem
 	}
 }
 
+// verifCheckLonePrefix: a half-typed word that stands alone at top level (not yet an attribute or a
+// block, so the file does not parse): every candidate starts with what is typed between the start
+// of the word and the cursor, and its edit covers the word from its start.
+func verifCheckLonePrefix(d *PathDecoder, body *hclsyntax.Body, pos hcl.Pos, cs lang.Candidates) {
+	for _, a := range body.Attributes {
+		if verifAnd(a.SrcRange.Start.Byte <= pos.Byte, pos.Byte <= a.SrcRange.End.Byte) {
+			return
+		}
+	}
+	for _, b := range body.Blocks {
+		if verifAnd(b.Range().Start.Byte <= pos.Byte, pos.Byte <= b.Range().End.Byte) {
+			return
+		}
+	}
+	tokens, _ := hclsyntax.LexConfig(d.pathCtx.Files[vf].Bytes, vf, hcl.InitialPos)
+	at := verifCursorTag()
+	for k, t := range tokens {
+		if t.Type != hclsyntax.TokenIdent || !verifAnd(t.Range.Start.Byte <= pos.Byte, pos.Byte < t.Range.End.Byte) {
+			continue
+		}
+		// alone on its line: a newline (or nothing) before, a newline after
+		if k > 0 && tokens[k-1].Type != hclsyntax.TokenNewline && tokens[k-1].Type != hclsyntax.TokenComment {
+			return
+		}
+		if k+1 < len(tokens) && tokens[k+1].Type != hclsyntax.TokenNewline && tokens[k+1].Type != hclsyntax.TokenEOF {
+			return
+		}
+		word := string(t.Bytes)
+		n := verifConcretize(pos.Byte-t.Range.Start.Byte, 0, len(word))
+		prefix := word[:n]
+		for _, c := range cs.List {
+			verifAssert(hasPrefixSym(c.Label, prefix), "C07:candidates-for-a-half-typed-word-start-with-what-is-typed"+at)
+			verifAssert(c.TextEdit.Range.Start.Byte == t.Range.Start.Byte, "C06:edit-of-a-half-typed-word-starts-at-the-word"+at)
+		}
+		return
+	}
+}
+
 // the seeds whose first block is a "res" block: label completion against the dependent keys
 func verifResSeeds() []int {
 	var out []int
@@ -700,7 +764,8 @@ func VerifP_C07_BodyCompletion(i int) {
 	cs, err := d.CompletionAtPos(context.Background(), vf, pos)
 	if err == nil {
 		if body, ok := d.pathCtx.Files[vf].Body.(*hclsyntax.Body); ok {
-			verifCheckBodyCandidates(body, d.pathCtx.Schema, nil, pos, cs, 0)
+			verifCheckLonePrefix(d, body, pos, cs)
+			verifCheckBodyCandidates(body, verifOracleSchema(i), nil, pos, cs, 0)
 		}
 	}
 	verifReach("end")
@@ -716,7 +781,7 @@ func VerifP_C07_LabelCompletion(i int) {
 	cs, err := d.CompletionAtPos(context.Background(), vf, pos)
 	if err == nil {
 		if body, ok := d.pathCtx.Files[vf].Body.(*hclsyntax.Body); ok {
-			verifCheckLabelCandidates(body, d.pathCtx.Schema, pos, cs)
+			verifCheckLabelCandidates(body, verifOracleSchema(verifResSeeds()[i]), pos, cs)
 		}
 	}
 	verifReach("end")
@@ -733,9 +798,10 @@ func VerifP_C01C02C04C05C06C08_Completion(i int) {
 		if err == nil {
 			gCheckCandidates(cs, pos)
 			if body, ok := d.pathCtx.Files[vf].Body.(*hclsyntax.Body); ok {
-				verifCheckLabelCandidates(body, d.pathCtx.Schema, pos, cs)
+				verifCheckLabelCandidates(body, verifOracleSchema(i), pos, cs)
 			}
 			verifCheckArgCandidates(d, pos, cs)
+			verifCheckFunctionCandidates(d, pos, cs)
 		}
 	})
 	verifNoWrites("C04:completion-writes", true)
@@ -860,7 +926,7 @@ func VerifP_C01C02C04C05C13_SemTok(i int) {
 			}
 			// exactness of the structural tokens against the oracle
 			body := d.pathCtx.Files[vf].Body.(*hclsyntax.Body)
-			want := verifStructuralTokens(body, d.pathCtx.Schema, lang.SemanticTokenModifiers{})
+			want := verifStructuralTokens(body, verifOracleSchema(i), lang.SemanticTokenModifiers{})
 			exprs := verifAllExprRanges(body)
 			for _, t := range toks {
 				if t.Type == lang.TokenAttrName || t.Type == lang.TokenBlockType || t.Type == lang.TokenBlockLabel {
@@ -905,6 +971,85 @@ func verifCheckSymbols(syms []Symbol, parent *hcl.Range) {
 	}
 }
 
+// verifCheckOutline: the outline corresponds one-to-one, recursively, to what is written: an
+// attribute or block symbol per item of a body (by name and extent), under an attribute one symbol
+// per element of a list literal (named by its index, spanning the element) or per literally keyed
+// item of an object literal (named by the key - plain, quoted or a keyword -, spanning key to value).
+func verifCheckOutline(body *hclsyntax.Body, syms []Symbol) {
+	verifAssert(len(syms) == len(body.Attributes)+len(body.Blocks), "C14:one-symbol-per-item-at-every-depth")
+	for _, sy := range syms {
+		switch s := sy.(type) {
+		case *AttributeSymbol:
+			a, ok := body.Attributes[s.AttrName]
+			verifAssert(ok, "C14:attribute-symbol-names-a-written-attribute")
+			if ok {
+				verifAssert(verifSameRange(s.Range(), a.SrcRange), "C14:attribute-symbol-with-its-extent")
+				verifCheckExprOutline(a.Expr, s.NestedSymbols())
+			}
+		case *BlockSymbol:
+			n := 0
+			for _, b := range body.Blocks {
+				if verifSameRange(s.Range(), b.Range()) {
+					n++
+					verifAssert(s.Type == b.Type, "C14:block-symbol-type")
+					verifAssert(len(s.Labels) == len(b.Labels), "C14:block-symbol-labels")
+					for k := range b.Labels {
+						if k < len(s.Labels) {
+							verifAssert(s.Labels[k] == b.Labels[k], "C14:block-symbol-labels")
+						}
+					}
+					verifCheckOutline(b.Body, s.NestedSymbols())
+				}
+			}
+			verifAssert(n == 1, "C14:block-symbol-is-a-written-block")
+		}
+	}
+}
+
+func verifCheckExprOutline(expr hclsyntax.Expression, nested []Symbol) {
+	switch e := expr.(type) {
+	case *hclsyntax.TupleConsExpr:
+		verifAssert(len(nested) == len(e.Exprs), "C14:one-symbol-per-list-element")
+		for k, el := range e.Exprs {
+			if k < len(nested) {
+				verifAssert(nested[k].Name() == verifItoa(k), "C14:list-element-symbol-named-by-its-index")
+				verifAssert(verifSameRange(nested[k].Range(), el.Range()), "C14:list-element-symbol-spans-the-element")
+				verifCheckExprOutline(el, nested[k].NestedSymbols())
+			}
+		}
+	case *hclsyntax.ObjectConsExpr:
+		k := 0
+		for _, it := range e.Items {
+			key, _ := it.KeyExpr.Value(nil)
+			if key.IsNull() || !key.IsWhollyKnown() || key.Type() != cty.String {
+				continue // not literally keyed
+			}
+			verifAssert(k < len(nested), "C14:one-symbol-per-literally-keyed-object-item")
+			if k < len(nested) {
+				verifAssert(nested[k].Name() == key.AsString(), "C14:object-item-symbol-named-by-its-key")
+				verifAssert(verifAnd(nested[k].Range().Start.Byte == it.KeyExpr.Range().Start.Byte, nested[k].Range().End.Byte == it.ValueExpr.Range().End.Byte), "C14:object-item-symbol-spans-key-to-value")
+				verifCheckExprOutline(it.ValueExpr, nested[k].NestedSymbols())
+			}
+			k++
+		}
+		verifAssert(len(nested) == k, "C14:one-symbol-per-literally-keyed-object-item")
+	default:
+		verifAssert(len(nested) == 0, "C14:no-nested-symbols-under-a-scalar-value")
+	}
+}
+
+func verifItoa(n int) string {
+	if n == 0 {
+		return "0"
+	}
+	s := ""
+	for n > 0 {
+		s = string(rune('0'+n%10)) + s
+		n /= 10
+	}
+	return s
+}
+
 func VerifP_C01C02C04C05C14_Symbols_N() int { return len(verifSeedList()) }
 func VerifP_C01C02C04C05C14_Symbols_Name(i int) string { return verifSeedList()[i].name }
 func VerifP_C01C02C04C05C14_Symbols(i int) {
@@ -942,6 +1087,7 @@ func VerifP_C01C02C04C05C14_Symbols(i int) {
 				}
 				verifAssert(found, "C14:block-symbol-with-its-extent")
 			}
+			verifCheckOutline(body, syms)
 		}
 	})
 	verifNoWrites("C04:symbols-writes", true)
@@ -1049,7 +1195,13 @@ func VerifP_C01C02C04C05C15_Validate(i int) {
 				}
 			}
 			if body, ok := d.pathCtx.Files[vf].Body.(*hclsyntax.Body); ok {
-				verifCheckUnexpected(body, d.pathCtx.Schema, diags)
+				verifCheckUnexpected(body, verifOracleSchema(i), diags)
+			}
+			if s := verifSeedList()[i]; len(s.name) > 6 && s.name[:6] == "valid-" {
+				// a configuration that conforms to the schema at every depth
+				for _, dg := range diags {
+					verifAssert(dg.Summary != "Unexpected attribute" && dg.Summary != "Unexpected block", "C15:nothing-unexpected-in-a-conforming-configuration")
+				}
 			}
 		}
 	})
@@ -1061,14 +1213,16 @@ func VerifP_C01C02C04C05C15_Validate(i int) {
 func VerifP_C01C02C04C05C09_Targets_N() int { return len(verifSeedList()) }
 func VerifP_C01C02C04C05C09_Targets_Name(i int) string { return verifSeedList()[i].name }
 func VerifP_C01C02C04C05C09_Targets(i int) {
-	d, _ := verifSeedDecoder(i)
+	// the first query on a fresh schema: what it writes into the caller's schema for good would be
+	// invisible to every later query (a map filled once is copied properly from then on)
+	d, _, _ := verifSeedDecoderFresh(i)
 	verifFreeze(d.pathCtx)
 	verifQuery(func() {
 		ts, err := d.CollectReferenceTargets()
 		if err == nil {
 			verifCheckTargets(ts, nil)
 			body := d.pathCtx.Files[vf].Body.(*hclsyntax.Body)
-			verifCheckDeclaredTargets(body, d.pathCtx.Schema, ts)
+			verifCheckDeclaredTargets(body, verifOracleSchema(i), ts)
 		}
 	})
 	verifNoWrites("C04:targets-writes", true)
@@ -1241,6 +1395,20 @@ func verifCheckBlockTargetType(block *hclsyntax.Block, bsch *schema.BlockSchema,
 		verifAssert(t.Type.Equals(want), "C09:type-of-block-target-has-the-declared-type")
 		return
 	}
+	if as.DependentBodyAsData && !as.BodyAsData && as.AsTypeOf == nil {
+		// the data of the block is its dependent body: an object with every attribute of the body the block selects
+		if es := verifDepEntriesOf(block.Type); es != nil {
+			if db, _, resolved := verifSpecDependentBodyResolved(block, bsch, es); resolved && db != nil && t.Type.IsObjectType() {
+				for name, asch := range db.Attributes {
+					verifAssert(t.Type.HasAttribute(name), "C09:dependent-body-as-data-type-has-every-attribute-of-the-selected-body["+name+"]")
+					if lt, ok := asch.Constraint.(schema.LiteralType); ok && t.Type.HasAttribute(name) {
+						verifAssert(t.Type.AttributeType(name).Equals(lt.Type), "C09:dependent-body-as-data-attribute-type-is-the-declared-type")
+					}
+				}
+			}
+		}
+		return
+	}
 	if as.BodyAsData && !as.DependentBodyAsData && bsch.Body != nil && as.AsTypeOf == nil {
 		verifAssert(t.Type.IsObjectType(), "C09:body-as-data-target-is-an-object")
 		if !t.Type.IsObjectType() {
@@ -1395,6 +1563,11 @@ func verifWrittenKey(k hclsyntax.Expression) (string, bool) {
 				return lv.Val.AsString(), true
 			}
 		}
+	case *hclsyntax.LiteralValueExpr:
+		// the keywords true, false and null written as keys are the strings of that spelling
+		if v, _ := ke.Value(nil); v.IsWhollyKnown() && !v.IsNull() && v.Type() == cty.String {
+			return v.AsString(), true
+		}
 	}
 	return "", false
 }
@@ -1467,7 +1640,7 @@ func verifCheckTargets(ts reference.Targets, parent *reference.Target) {
 func VerifP_C01C02C04C05C10_Origins_N() int { return len(verifSeedList()) }
 func VerifP_C01C02C04C05C10_Origins_Name(i int) string { return verifSeedList()[i].name }
 func VerifP_C01C02C04C05C10_Origins(i int) {
-	d, s := verifSeedDecoder(i)
+	d, _, s := verifSeedDecoderFresh(i)
 	verifFreeze(d.pathCtx)
 	verifQuery(func() {
 		os, err := d.CollectReferenceOrigins()
@@ -1480,7 +1653,7 @@ func VerifP_C01C02C04C05C10_Origins(i int) {
 			}
 			if !verifSeedHasOneOf(s) {
 				body := d.pathCtx.Files[vf].Body.(*hclsyntax.Body)
-				want := verifExpectedOrigins(body, d.pathCtx.Schema)
+				want := verifExpectedOrigins(body, verifOracleSchema(i))
 				got := 0
 				for _, o := range os {
 					if _, ok := o.(reference.LocalOrigin); ok {
@@ -1670,6 +1843,49 @@ func VerifP_C01C02C04C05C20_Signature(i int) {
 	verifReach("end")
 }
 
+// verifCheckFunctionCandidates: inside the value of a top-level attribute constrained by
+// AnyExpression of a type, every function candidate is a known function whose return type converts
+// to that type (decided by cty's own conversion on an unknown value of the return type).
+func verifCheckFunctionCandidates(d *PathDecoder, pos hcl.Pos, cs lang.Candidates) {
+	body, ok := d.pathCtx.Files[vf].Body.(*hclsyntax.Body)
+	if !ok || d.pathCtx.Schema == nil {
+		return
+	}
+	for name, attr := range body.Attributes {
+		as, ok := d.pathCtx.Schema.Attributes[name]
+		if !ok {
+			continue
+		}
+		ae, ok := as.Constraint.(schema.AnyExpression)
+		if !ok || ae.OfType == cty.DynamicPseudoType || ae.OfType == cty.NilType {
+			continue
+		}
+		// only where the whole value is being typed: a half-typed name or nothing yet (inside a
+		// call, a collection or a template the expected type is that of the part under the cursor)
+		if st, isName := attr.Expr.(*hclsyntax.ScopeTraversalExpr); isName {
+			if len(st.Traversal) != 1 {
+				continue
+			}
+		} else if attr.Expr.Range().Start.Byte != attr.Expr.Range().End.Byte {
+			continue
+		}
+		if !verifAnd(attr.EqualsRange.End.Byte <= pos.Byte, pos.Byte <= attr.SrcRange.End.Byte) {
+			continue
+		}
+		for _, c := range cs.List {
+			if c.Kind != lang.FunctionCandidateKind {
+				continue
+			}
+			f, known := d.pathCtx.Functions[c.Label]
+			verifAssert(known, "C08:function-candidate-is-a-known-function")
+			if known {
+				_, err := convert.Convert(cty.UnknownVal(f.ReturnType), ae.OfType)
+				verifAssert(err == nil, "C08:function-candidate-return-type-converts-to-the-expected-type["+c.Label+"]"+verifCursorTag())
+			}
+		}
+	}
+}
+
 // verifCheckArgCandidates: with the cursor in blank space inside the parentheses of a known call
 // (no token touches the cursor, so nothing is typed yet), the boolean literals are offered exactly
 // when the parameter of the argument slot under the cursor - counted in commas, as for signature
@@ -1847,7 +2063,7 @@ func VerifP_C01C02C04C05C16_Links(i int) {
 				verifAssert(verifRealRange(vf, l.Range), "C02:link-range")
 			}
 			if body, ok := d.pathCtx.Files[vf].Body.(*hclsyntax.Body); ok {
-				verifCheckLinks(body, d.pathCtx.Schema, links)
+				verifCheckLinks(body, verifOracleSchema(i), links)
 			}
 		}
 	})
